@@ -128,17 +128,24 @@ def heap_pairing_rules(ctx, add):
             probs_pair.append("operation pattern tree(+%d -%d) map(+%d -%d upd %d) is none of the four documented cases" % pat)
         # counts agree
         if pat == (1, 0, 1, 0, 0):
+            from ..guards import resolve_phi
             tv = tree_ins[0]["args"][1]
             mv = map_ins[0]["args"][1] if len(map_ins[0]["args"]) == 2 else map_ins[0]["args"][-1]
             tn = dict(tv[3]).get("n") if tv[0] == "adt" else None
+            tn = resolve_phi(tn, facts) if tn is not None else None
+            mv = resolve_phi(mv, facts)
             if tn != mv:
                 probs_pair.append("new key: tree count %s but map count %s" % (fmt(tn) if tn else "?", fmt(mv)))
             if fv(facts, size_lt_k) is not True:
                 probs_cap.append("a key is added without the guard size < k")
         if pat == (1, 1, 1, 1, 0):
+            from ..guards import resolve_phi
             tv = tree_ins[0]["args"][1]
             tn = dict(tv[3]).get("n") if tv[0] == "adt" else None
             mv = map_ins[0]["args"][-1]
+            # `let initial = if size < k { 1 } else { ..; estimate }`: on this path the join is the value its test selects
+            tn = resolve_phi(tn, facts) if tn is not None else None
+            mv = resolve_phi(mv, facts)
             if tn != mv or not mentions_estimate(mv):
                 probs_pair.append("displacement: tree count %s / map count %s are not both the sketch estimate" % (fmt(tn) if tn else "?", fmt(mv)))
             rem_t = tree_rem[0]["args"][1]
